@@ -184,7 +184,7 @@ def shrink(sub, case):
 IDENTS = ["x", "y", "local_y", "self.global_state_y", "dagrt_state%dagrt_refcnt_p_last_rhs_y", "i", "tmp_0",
           "lploc_temp", "self._functions.func_f", "n", "result"]
 OPS = ["+", "-", "*", "/", "=", "==", "<=", "**", ".and.", ".ne.", "=>", "::", ","]
-WORDS = ["alpha", "beta", "failed", "to", "allocate", "x", "a", "0", "state"]
+WORDS = ["alpha", "beta", "failed", "to", "allocate", "x", "a", "0", "state", "C:\\dir\\", "\\"]
 
 
 def string_literals(glue_ok=True):
